@@ -1,5 +1,7 @@
 (* C02 - The doctree is a faithful image of the Markdown token tree.
-   Statements only; proofs are in Doc/Refine.v, Doc/RenderProofs.v. *)
+   Statements only; the proofs are in Doc/Refine.v, RenderProofs.v, PostProofs.v, TopProofs.v,
+   DecoProofs.v, Final.v.  Model: Doc/Render.v (transcription of DocutilsRenderer / SphinxRenderer),
+   specification: Doc/Skel.v (skel_tok reads token fields only; skel_node erases the doctree). *)
 From Coq Require Import List NArith Bool.
 From MV Require Import Base.PyStr.
 From MV Require Import Base.Res.
@@ -11,12 +13,17 @@ From MV Require Import Doc.Prog.
 From MV Require Import Doc.Refine.
 From MV Require Import Doc.Render.
 From MV Require Import Doc.RenderProofs.
+From MV Require Import Doc.Skel.
+From MV Require Import Doc.WF.
+From MV Require Import Doc.PostProofs.
+From MV Require Import Doc.TopProofs.
+From MV Require Import Doc.Final.
 Import ListNotations.
 
-(* The two semantics of the renderer's instruction set agree: whatever program runs while the
-   current node is an element of the tree, the Python semantics (tree, current path, level map)
-   appends at the current path exactly the nodes of the functional reading, and leaves current
-   path and level map unchanged.  (run_f = None only for programs that open a section.) *)
+(* The two semantics of the renderer's instruction set agree.  For every program, every state whose
+   current node is an element of the tree: the Python semantics (tree, current path, level map)
+   appends at the current path exactly the nodes of the functional reading and leaves current path
+   and level map unchanged.  (run_f = None only for programs that open a section.) *)
 Theorem C02_refinement : forall (p : prog) (s : istate) r,
   valid (cur s) (tree s) = true ->
   run_f p (tag_at (cur s) (tree s)) (fs s) = Some r ->
@@ -27,19 +34,80 @@ Theorem C02_refinement : forall (p : prog) (s : istate) r,
 Proof. exact refine. Qed.
 Print Assumptions C02_refinement.
 
-(* After rendering any token that cannot reach render_heading with the current node being the
-   document or a section (i.e. any token under a container, and any non-heading token that is not
-   a transparent wrapper of a heading) the current node and the section level map are what they
-   were: every current_node_context is left as it was entered - for every backend, configuration,
-   oracle behaviour, token (any depth) and state. *)
+(* After rendering any token that cannot reach render_heading while the current node is the document
+   or a section (every token below a container; every token that is neither a heading nor a
+   transparent wrapper - inline, s - of one) the current node and the section level map are what they
+   were: every current_node_context is left as it was entered.  For every back end, configuration,
+   oracle behaviour, token (any depth, any type) and state; only a heading at section level moves
+   the current node (to the section it opens: TopProofs.tinv_step_heading). *)
 Theorem C02_render_restores_cur : forall B C OR (t : tok) (s s' : istate),
   valid (cur s) (tree s) = true ->
   is_section_tag (tag_at (cur s) (tree s)) = false \/ opens_section t = false ->
   run_i (rt_run (build B C OR t)) s = Good s' ->
   cur s' = cur s /\ lvl s' = lvl s.
-Proof.
-  intros B C OR t s s' Hv Hc H.
-  apply (run_i_restores (rt_run (build B C OR t)) s s' Hv); [|exact H].
-  apply (all_sub_here _ _ (build_frameable B C OR t)). exact Hc.
-Qed.
+Proof. exact render_restores_cur. Qed.
 Print Assumptions C02_render_restores_cur.
+
+(* FAITHFUL IMAGE.  For both back ends, every configuration of the model, every token forest of the
+   static grammar (static_forest: attribute dicts, tables = thead(tr) [tbody], field lists = name/body
+   pairs, no inv:/path:/project: links, only headings open sections at the top level; arbitrary depth
+   and size) that the model renders: unless the renderer dropped content with a warning (a duplicate
+   footnote definition, a token type without render method: has_dropped), the skeleton of the doctree
+   equals the skeleton of the token tree - every text / literal / code / raw / math / image /
+   transition leaf exactly once, in order, with identical content, one container per container, link
+   destination, image uri and alt, list enumtype / start / suffix / bullet, cell alignment and code
+   language carried over.  Oracle assumptions: the lexer's token values concatenate to the code
+   (O_lexer_concat), the destination canonicaliser D is invariant under normalizeLinkText (O_canon),
+   Sphinx finds no project file for a link destination (O_no_files). *)
+Theorem C02_faithful : forall (D : str -> str) (B : backend) (C : cfg) (OR : oracles)
+                              (ts : list tok) (doc : node) (ws : list str),
+  O_lexer_concat OR -> O_canon D OR -> O_no_files OR ->
+  static_forest ts = true ->
+  render_doc B C OR ts = Good (doc, ws) ->
+  has_dropped doc = false ->
+  skel_node D doc = skel_toks D B C OR ts.
+Proof. exact faithful. Qed.
+Print Assumptions C02_faithful.
+
+(* The two back ends agree on everything that is not back-end specific, at the level of the skeleton
+   (what erase_backend removes: how a code block carries its language; target nodes).  PARTIAL: the
+   attributes outside the skeleton (classes, names, ids) are compared by the correspondence check only. *)
+Theorem C02_backends_agree_partial : forall (D : str -> str) C OR ts docD wsD docS wsS,
+  O_lexer_concat OR -> O_canon D OR -> O_no_files OR ->
+  static_forest ts = true ->
+  render_doc Docutils C OR ts = Good (docD, wsD) -> has_dropped docD = false ->
+  render_doc Sphinx C OR ts = Good (docS, wsS) -> has_dropped docS = false ->
+  flat_map erase_backend (skel_node D docD) = flat_map erase_backend (skel_node D docS).
+Proof. exact backends_agree. Qed.
+Print Assumptions C02_backends_agree_partial.
+
+(* Code text is verbatim (up to one final newline) under O_lexer_concat: instance of C02_faithful for a
+   document that is one fenced code block. *)
+Theorem C02_code_verbatim_partial : forall (D : str -> str) B C OR (t : tok) doc ws,
+  O_lexer_concat OR -> O_canon D OR -> O_no_files OR ->
+  kind_of (ty t) = KFence -> static_forest [t] = true ->
+  render_doc B C OR [t] = Good (doc, ws) -> has_dropped doc = false ->
+  skel_node D doc = [SCode (lang_carried B OR t (Some (fence_name B C OR t))) (strip1nl (content t))].
+Proof. exact code_verbatim. Qed.
+Print Assumptions C02_code_verbatim_partial.
+
+(* ... and REFUTED without it: with a lexer that drops leading newlines (pygments' stripnl behind docutils'
+   Lexer: open finding code-verbatim:pygments-stripnl) the code block "\n\nx\n" is not carried verbatim. *)
+Theorem C02_code_verbatim_refuted :
+  exists (ts : list tok) doc ws,
+    static_forest ts = true /\
+    render_doc Docutils default_cfg stripnl_oracles ts = Good (doc, ws) /\ has_dropped doc = false /\
+    skel_node (fun x => x) doc <> skel_toks (fun x => x) Docutils default_cfg stripnl_oracles ts.
+Proof. exact code_verbatim_refuted. Qed.
+Print Assumptions C02_code_verbatim_refuted.
+
+(* non-vacuity: a heading, a paragraph with text, and a code fence meet every premise of C02_faithful *)
+Example C02_example :
+  let ts := [tok_heading 1 [tok_text [97]]; tok_para [tok_text [98]]; tok_fence [] [120; 10]] in
+  static_forest ts = true /\
+  match render_doc Docutils default_cfg dummy_oracles ts with
+  | Good (doc, _) => has_dropped doc = false /\
+                     skel_node (fun x => x) doc = skel_toks (fun x => x) Docutils default_cfg dummy_oracles ts
+  | Bad _ => False
+  end.
+Proof. vm_compute. repeat split; reflexivity. Qed.
